@@ -55,7 +55,10 @@ def sel_case(draw, tier):
     if sel == "selectisinstance":
         c["value"] = draw(st.sampled_from(sorted(TYPES)))
     if sel == "selectop":
-        c["value"] = draw(st.sampled_from(["eq", "ne", "is_"]))
+        c["value"] = draw(st.sampled_from(["eq", "ne"]))  # no identity operators: the petl table is a copy
+    if sel in ("selectis", "selectisnot"):
+        # identity is only meaningful for singletons; cells and value are separate copies in the petl table
+        c["value"] = draw(st.sampled_from([None, True, False]))
     if sel.startswith("select-"):
         c["missing"] = draw(st.sampled_from([None, "M"]))
     if contains:
